@@ -1,7 +1,7 @@
 """Generic intraprocedural dataflow helpers: reaching definitions, origins, symbolic
 linear forms.  All work on the CFG of one function; nothing executes code."""
 from .frontend import walk, children, strip, strip_parens, qtype
-from .expr import canon, var_init, int_value
+from .expr import canon, var_init, int_value, is_null
 
 
 # Repo functions that return one of their pointer parameters unchanged (or NULL): name -> parameter index.
@@ -186,6 +186,38 @@ class ReachingDefs:
 # --------------------------------------------------------------------------------------
 # origins: which base object may a pointer expression point into
 
+def _moved_out(rd, d, use_id):
+    """d: `v = X->f` (pointer field load). True iff every CFG path from the definition to the use passes a store
+    `X->f = NULL` (same canonical path) and X is not re-assigned in between."""
+    r = strip(d.rhs)
+    if r.get('kind') != 'MemberExpr' or not qtype(r).rstrip().endswith('*'):
+        return False
+    path = canon(r)
+    cfg = rd.func.cfg
+    detach = set()
+    for n in cfg.nodes:
+        if not isinstance(n.ast, dict) or n.kind == 'macro':
+            continue
+        for x in walk(n.ast):
+            if x.get('kind') == 'BinaryOperator' and x.get('opcode') == '=' and canon(children(x)[0]) == path \
+                    and is_null(children(x)[1]):
+                detach.add(n.id)
+    if not detach or d.node in detach:
+        return False
+    byid = {n.id: n for n in cfg.nodes}
+    seen, work = {d.node}, [byid[d.node]]
+    while work:
+        n = work.pop()
+        for (s, _l) in n.succs:
+            if s.id in detach or s.id in seen:
+                continue
+            if s.id == use_id:
+                return False
+            seen.add(s.id)
+            work.append(s)
+    return True
+
+
 def origins(rd, node_id, e, prog=None, depth=0, seen=None):
     """Set of origin tags of pointer expression e evaluated at CFG node node_id.
     Tags: 'param:<name>', 'path:<canon>', 'fresh:<line>', 'lit', 'addr:<name>', 'call:<name>@<line>',
@@ -206,6 +238,11 @@ def origins(rd, node_id, e, prog=None, depth=0, seen=None):
                     if key in seen:
                         continue
                     seen.add(key)
+                    if _moved_out(rd, d, node_id):
+                        # `v = X->f; ... X->f = NULL;` on every path to the use: the container gave its only reference
+                        # away - for the receiver the block is as good as freshly allocated (ownership transfer)
+                        out.add('fresh:moved@%s' % d.line)
+                        continue
                     out |= origins(rd, d.node, d.rhs, prog, depth + 1, seen)
                 elif d.kind == 'update':
                     # p += k / p++ : same base as before the update
@@ -371,7 +408,7 @@ class Poly:
     def __repr__(self):
         if not self.t:
             return '0'
-        return ' + '.join('%s%s' % (('%d*' % v) if v != 1 or not k else '', '*'.join(k) or str(v)) for k, v in sorted(self.t.items()))
+        return ' + '.join(str(v) if not k else ('%s%s' % (('%d*' % v) if v != 1 else '', '*'.join(k))) for k, v in sorted(self.t.items()))
 
 
 def poly_of(e, rd=None, node_id=None, depth=0):
